@@ -25,8 +25,8 @@ ASSUMPTIONS = ['the mirror uses pyx12.map_if nodes for positions and segment/qua
                'the exception type for invalid paths is not constrained; values written contain no delimiter']
 
 MAPS = [('837.4010.X098.A1.xml', ['2000A', '2000B', '2300']), ('837.5010.X222.A1.xml', ['2000A', '2300']), ('837.4010.X096.A1.xml', ['2000A', '2300']),
-        ('834.4010.X095.A1.xml', ['2000']), ('835.4010.X091.A1.xml', ['2000', '2100']), ('271.4010.X092.A1.xml', ['2000A', '2000B']),
-        ('278.4010.X094.27.A1.xml', ['2000A']), ('834.5010.X220.A1.xml', ['2000']), ('835.5010.X221.A1.xml', ['2000']),
+        ('834.4010.X095.A1.xml', ['2000']), ('835.4010.X091.A1.xml', ['2000', '2100', 'ST_LOOP']), ('271.4010.X092.A1.xml', ['2000A', '2000B']),
+        ('278.4010.X094.27.A1.xml', ['2000A']), ('834.5010.X220.A1.xml', ['2000']), ('835.5010.X221.A1.xml', ['2000', 'ST_LOOP']),
         # the one shipped map whose loop ids (AK2, AK3) are spelled like segment ids
         ('997.4010.xml', ['ST_LOOP', 'AK2'])]
 
@@ -81,6 +81,12 @@ def serial_m(m, out=None):
         for c in m.children:
             serial_m(c, out)
     return out
+
+
+def loop_shape(node):
+    """the loops of a tree (ids and nesting, with the number of live segments each holds), empty ones included"""
+    kids = [c for c in node.children if c.type is not None]
+    return (node.id, sum(1 for c in kids if c.type == 'seg'), [loop_shape(c) for c in kids if c.type == 'loop'])
 
 
 def serial_r(real):
@@ -418,11 +424,15 @@ class Sut(object):
             txt = op['text']
             import pyx12.segment
             sd = pyx12.segment.Segment(txt, '~', '*', ':')
-            if k == 'add_segment':
+            if op.get('deep'):
+                # the segment starts a loop two levels down: no child loop of this node begins with it
+                xn = None
+            elif k == 'add_segment':
                 xn = mnode.x.get_child_seg_node(sd)
             else:
                 xn = mnode.x.get_child_loop_node(sd)
             before = serial_r(self.real[t])
+            shape0 = loop_shape(self.real[t])
             try:
                 if k == 'add_segment':
                     rnode.add_segment(txt)
@@ -430,8 +440,9 @@ class Sut(object):
                     rnode.add_loop(txt)
             except Exception as e:
                 if xn is None:
-                    if serial_r(self.real[t]) != before:
+                    if serial_r(self.real[t]) != before or loop_shape(self.real[t]) != shape0:
                         raise Violation('failed-add-changed-tree', txt)
+                    self.flags.add('refused-add')
                     return
                 raise Violation('%s-raises' % k, '%r: %s' % (txt, core.exc_detail(e)))
             if xn is None:
@@ -743,9 +754,22 @@ def make_machine(text, fname, loop_id, which, gen_seed):
             if self.pairs is None:
                 self.pairs = _pair_nodes(fname)
             kids = []
+            deep = asloop and s % 5 == 0
             for ordk in sorted(m.x.pos_map):
                 for c in m.x.pos_map[ordk]:
-                    if asloop and c.is_loop() and c.usage != 'N':
+                    if deep and c.is_loop() and c.usage != 'N':
+                        for g_ in c.childIterator():
+                            if g_.is_loop() and g_.usage != 'N':
+                                fs = g_.get_first_seg()
+                                direct_ = [x.id for x in m.x.childIterator() if x.is_segment()]
+                                for x in m.x.childIterator():
+                                    if x.is_loop() and len(x) > 0:
+                                        f_ = x.get_first_seg()
+                                        if f_ is not None:
+                                            direct_.append(f_.id)
+                                if fs is not None and nkey(fs) in self.pairs and fs.id not in direct_:
+                                    kids.append(fs)
+                    elif asloop and c.is_loop() and c.usage != 'N':
                         fs = c.get_first_seg()
                         if fs is not None and nkey(fs) in self.pairs:
                             kids.append(fs)
@@ -760,7 +784,7 @@ def make_machine(text, fname, loop_id, which, gen_seed):
             except docgen.GenFail:
                 return
             txt = xn.id + '*' + '*'.join(':'.join(e) for e in x12ref.trim(vals_)) + '~'
-            self.sut.apply(dict(op='add_loop' if asloop else 'add_segment', t=t, start=loops, text=txt))
+            self.sut.apply(dict(op='add_loop' if asloop else 'add_segment', t=t, start=loops, text=txt, deep=bool(asloop and s % 5 == 0)))
 
         @rule(i=st.integers(0, 10 ** 6), t=st.integers(0, 1), k=st.integers(0, 10 ** 6), s=st.integers(0, 2 ** 31), j=st.integers(0, 10 ** 6))
         def delete_then_add(self, i, t, k, s, j):
